@@ -534,6 +534,46 @@ fn array_form(doc: &[(String, J)]) -> J {
     J::Arr(vec![get("Version"), get("Id"), get("Statement")])
 }
 
+/// a well-formed policy in which `Version` and/or the `Effect` of some statements is written as the
+/// one-member object `{"<its name>": null}` (the form serde_json's `deserialize_enum` also takes for a
+/// derived unit-variant enum); nothing else is wrong with the document
+fn enum_object_form(rng: &mut Rng, doc: &mut [(String, J)]) {
+    let wrap = |v: &mut J| {
+        if let J::Str(name) = v {
+            *v = J::Obj(vec![(name.clone(), J::Null)]);
+        }
+    };
+    let which = rng.below(3); // 0 Version (Effect when there is no Version string), 1 Effect, 2 both
+    let mut done = false;
+    if which != 1 {
+        for (k, v) in doc.iter_mut() {
+            if k == "Version" && matches!(v, J::Str(_)) {
+                wrap(v);
+                done = true;
+            }
+        }
+    }
+    if which != 0 || !done {
+        let all = rng.chance(1, 3);
+        for (k, v) in doc.iter_mut() {
+            if k == "Statement" {
+                let stmts: Vec<&mut J> = match v {
+                    J::Arr(items) => items.iter_mut().collect(),
+                    one => vec![one],
+                };
+                let pick = rng.below(stmts.len() as u64) as usize;
+                for (i, s) in stmts.into_iter().enumerate() {
+                    if let J::Obj(m) = s {
+                        if all || i == pick {
+                            m.iter_mut().filter(|(k, _)| k == "Effect").for_each(|(_, v)| wrap(v));
+                        }
+                    }
+                }
+            }
+        }
+    }
+}
+
 /// one mutation; returns the (possibly replaced) top-level value
 fn mutate(rng: &mut Rng, mut doc: Vec<(String, J)>) -> J {
     match rng.below(22) {
@@ -780,7 +820,7 @@ fn generate(rng: &mut Rng, n: u64, tier: &str, emit: &mut dyn FnMut(Vec<String>)
             }
         }
     }
-    // (2) random values with 0..4 statements, (3) documents: plain (object form, array form) and mutated
+    // (2) random values with 0..4 statements, (3) documents: plain (as the grammar has them; array form; Version/Effect in object form) and mutated
     for i in 0..n {
         match i % 5 {
             0 | 1 => {
@@ -788,9 +828,17 @@ fn generate(rng: &mut Rng, n: u64, tier: &str, emit: &mut dyn FnMut(Vec<String>)
                 emit(vec!["val".to_owned(), hex(p.to_string().as_bytes())]);
             }
             2 => {
-                // a well-formed policy; one in eight written in array form (nothing else wrong with it)
-                let d = doc_policy(rng);
-                let j = if rng.chance(1, 8) { array_form(&d) } else { J::Obj(d) };
+                // a well-formed policy; one in eight written in array form, one in eight with Version /
+                // Effect in object form (nothing else wrong with it)
+                let mut d = doc_policy(rng);
+                let j = match rng.below(8) {
+                    0 => array_form(&d),
+                    1 => {
+                        enum_object_form(rng, &mut d);
+                        J::Obj(d)
+                    }
+                    _ => J::Obj(d),
+                };
                 emit_doc(rng, &j, emit);
             }
             _ => {
